@@ -50,15 +50,14 @@ class _Finder(importlib.abc.MetaPathFinder, importlib.abc.Loader):
         if fullname.startswith(SYM_PKG + "."):
             sub = fullname[len(SYM_PKG) + 1:]
             if sub == "data":
-                return importlib.util.spec_from_loader(fullname, self, is_package=True)
+                # a genuine source-file package over the same directory, so importlib.resources works on it
+                d = os.path.join(PKG_DIR, "data")
+                return importlib.util.spec_from_file_location(fullname, os.path.join(d, "__init__.py"), submodule_search_locations=[d])
             if os.path.exists(os.path.join(PKG_DIR, sub + ".py")):
                 return importlib.util.spec_from_loader(fullname, self)
         return None
 
     def create_module(self, spec):
-        if spec.name == SYM_PKG + ".data":
-            import htstabilizer.data as d   # the shipped data package itself (resources are read natively)
-            return d
         return None
 
     def exec_module(self, module):
@@ -66,7 +65,7 @@ class _Finder(importlib.abc.MetaPathFinder, importlib.abc.Loader):
         if name == SYM_PKG:
             module.__path__ = []
             return
-        if name == SYM_PKG + ".data":
+        if name == SYM_PKG + ".data" or name == "htstabilizer.data":
             return
         sub = name[len(SYM_PKG) + 1:]
         fn = os.path.join(PKG_DIR, sub + ".py")
